@@ -18,6 +18,7 @@ use serde_json::json;
 pub struct C09;
 
 const T_SLOT: u32 = 20;
+const T_NOTERM: u32 = 21;
 
 /// one line of the `tokens` dump -> (start position, token text) or the error text
 pub fn parse_token_line(l: &str) -> Option<((u32, u32), String)> {
@@ -54,7 +55,17 @@ pub fn token_texts(dump: &str) -> Vec<String> {
     let mut out = vec![];
     for l in dump.lines() {
         match parse_token_line(l) {
-            Some((_, t)) => out.push(t),
+            Some((_, t)) => {
+                // the slots of an interpolated literal carry their source positions, which move
+                // with the layout like every other position (held to the translation law by C18)
+                if t.starts_with("InterpStrLiteral(") {
+                    if let Some(i) = t.rfind("\", [") {
+                        out.push(format!("{}{}", &t[..i], super::c08::erase_positions(&t[i..])));
+                        continue;
+                    }
+                }
+                out.push(t)
+            }
             None => {
                 // Err(Kind((L, C), ...)) -> keep the kind and payload, drop the position
                 let mut s = l.to_string();
@@ -351,7 +362,7 @@ impl Check for C09 {
     fn run(&self, ctx: &mut Ctx) -> Result<(), MachineryError> {
         let corp = corpus();
         ctx.rule = format!(
-            "deviation-bounded: corpus of {} programs (the repository's test scripts and generated programs) x every single layout edit at every token boundary (space / tab / CR after a token; comment before an existing newline; comment line or blank lines where a newline is neutral; newline <-> `;`; doubled terminators; line break and CR LF + indentation after each continuation token; line break after every other token compared with `;` there; `_` after every digit of every integer literal; every ASCII character of every plain string literal as \\xhh and \\xHH; leading layout), k = 1{}; plus spaces, tabs, a leading line break or terminator inside every interpolation slot of the corpus; plus a line break after each of the 25 continuation tokens and 13 non-continuation tokens; non-trivial = every edited variant",
+            "deviation-bounded: corpus of {} programs (the repository's test scripts and generated programs) x every single layout edit at every token boundary (space / tab / CR after a token; comment before an existing newline; comment line or blank lines where a newline is neutral; newline <-> `;`; doubled terminators; line break and CR LF + indentation after each continuation token; line break after every other token compared with `;` there; `_` after every digit of every integer literal; every ASCII character of every plain string literal as \\xhh and \\xHH; leading layout), k = 1{}; plus every terminator of the corpus replaced by a space (rejected wherever the grammar then has no program); plus spaces, tabs, a leading line break, terminator or comment inside every interpolation slot of the corpus; plus a line break after each of the 25 continuation tokens and 13 non-continuation tokens; non-trivial = every edited variant",
             corp.len(),
             if ctx.tier == Tier::Thorough { "; k = 2: all ordered pairs of edits on programs of at most 12 tokens" } else { "" }
         );
@@ -440,6 +451,31 @@ impl Check for C09 {
             },
             None => Verdict::Pass,
         })?;
+        // a statement ends only at a newline or `;`: replacing a terminator by a space where the
+        // reference grammar then has no program must be rejected by the real front end as well
+        {
+            use crate::refm::lex::{lex_raw, Tok};
+            use crate::refm::parse::parse_prog;
+            let mut cases = vec![];
+            for (name, src) in &corp {
+                if src.len() > 600 || parse_prog(src).is_err() {
+                    continue;
+                }
+                let (toks, _) = lex_raw(src);
+                for t in toks.iter().filter(|t| t.tok == Tok::End && t.end > t.start) {
+                    let variant = format!("{} {}", &src[..t.start], &src[t.end..]);
+                    if parse_prog(&variant).is_ok() {
+                        continue;
+                    }
+                    let mut c = Case::new(variant, T_NOTERM, format!("{}: terminator at byte {} replaced by a space", name, t.start));
+                    c.mode = Mode::Ast;
+                    c.no_ref = true;
+                    cases.push(c);
+                }
+            }
+            ctx.extra.insert("terminator_removals".into(), json!(cases.len()));
+            ctx.judge(cases, |c, r, o| self.oracle(c, r, o))?;
+        }
         // layout inside interpolation slots: same output, same failure, same message
         {
             let mut cases = vec![];
@@ -521,6 +557,12 @@ impl Check for C09 {
 
     fn oracle(&self, c: &Case, r: &RefOutcome, o: &Outcome) -> Verdict {
         match c.tag {
+            T_NOTERM => {
+                if o.out_str().starts_with("Ok(") {
+                    return viol("terminator-required", format!("{}: two statements (or a statement and `}}`) with neither a newline nor `;` between them were accepted: {:?}", c.meta, c.src));
+                }
+                Verdict::Pass
+            }
             10 => {
                 let p: Vec<&str> = c.meta.split('\u{1}').collect();
                 if o.class != Class::Ok || o.out_str() != p[2] {
